@@ -52,6 +52,9 @@ type FileSpec struct {
 	Len      int    `json:"len"`
 	Chunk    int    `json:"chunk,omitempty"`    // >0: short reads of that size
 	Declared string `json:"declared,omitempty"` // ContentType() of the source, "" = none
+	// Renamed: the source is runtime.NamedReader(Name, <a named source called Renamed>): the part must
+	// carry Name, the name the caller gave last
+	Renamed string `json:"renamedFrom,omitempty"`
 }
 
 // Case is one client request.
@@ -214,9 +217,16 @@ func runCase(m *mon.M, c *Case) {
 			if _, ok := byField[fs.Field]; !ok {
 				order = append(order, fs.Field)
 			}
-			if fs.Declared != "" {
+			switch {
+			case fs.Declared != "":
 				byField[fs.Field] = append(byField[fs.Field], typedUpload{u})
-			} else {
+			case fs.Renamed != "":
+				inner := *u
+				inner.spec.Name = fs.Renamed
+				wrapped := rt.NamedReader(fs.Name, &inner)
+				uploads[len(uploads)-1] = &inner // the bytes are read from the inner source
+				byField[fs.Field] = append(byField[fs.Field], wrapped)
+			default:
 				byField[fs.Field] = append(byField[fs.Field], u)
 			}
 		}
@@ -479,8 +489,12 @@ func genFiles(r *rand.Rand, n int, lenPick func() int) []FileSpec {
 		case 1:
 			fs.Chunk = 100
 		}
-		if r.Intn(4) == 0 {
-			fs.Declared = []string{"image/png", "text/x-custom; charset=utf-8", "application/pdf"}[r.Intn(3)]
+		switch r.Intn(8) {
+		case 0, 1:
+			// declared types are sent as declared, however they are spelled
+			fs.Declared = []string{"image/png", "text/x-custom; charset=utf-8", "application/pdf", "text/plain;charset=utf-8", "IMAGE/PNG", `text/x-q; b=2; a="1"`, "application/vnd.x+json;  v=1"}[r.Intn(7)]
+		case 2:
+			fs.Renamed = []string{"tmp-123.bin", "upload.tmp", "other/inner.txt"}[r.Intn(3)]
 		}
 		out = append(out, fs)
 	}
